@@ -3,6 +3,7 @@ import GB.C08.MimeProofs
 import GB.C08.HandoffProofs
 import GB.C08.ConnProofs
 import GB.C08.StallProofs
+import GB.C08.FenceProofs
 import GB.Generated.Facts
 /-
   C08 — gRPC-Web framing is lossless and always ends with exactly one status trailer.
@@ -473,3 +474,117 @@ example : (GB.LTS.run (Handoff.step true) Handoff.init
 example : (GB.LTS.run (Handoff.step false) Handoff.init
     [.clientSend (wsFrame [7]), .clientSend (wsFrame [8]), .recvCall, .read, .handoff, .read, .closeDone, .onDone, .readerExit]).map
       (fun s => (s.results, s.reader)) = some ([.msg [7]], .exited) := by decide
+
+
+/-! ### the Send / trailer fence over ALL interleavings (Fence.lean: forwarder, abandoned `withCtx` helpers, handler epilogue)
+
+  `Fence.step` is the LTS of gRPCWebStream (kind `http`) and gRPCWebSocketStream (kind `ws`) with the order of the
+  code after fix e34ade0 (D30): the `finished` flag is read and written under the stream mutex. Every theorem below is
+  about every label sequence executable from the initial state, i.e. every schedule of: any number of Send calls, each
+  run by its own helper goroutine at its own pace (abandoned or not), SetHeader / SetTrailer, Forward returning with
+  any status, the handler's Lock ; finished = true ; Unlock ; trailer write, and failing writes. -/
+
+/-- The output is always `header-part ++ frames(messages written so far) ++ (trailer)?`: the data frames are whole
+    `lpmMessage` frames, in the order the writes happened; a trailer frame is there only once the handler is done, it is
+    the frame `lpmTrailer (trailerWithStatus s.trailer code msg)` of the status Forward returned and of the trailer
+    metadata the forwarder set, it is last, and there is at most one; over HTTP there is no header part. -/
+theorem C08_fence_output_shape (k : Fence.Kind) (ls : List Fence.Lbl) (s : Fence.St)
+    (hr : GB.LTS.run Fence.step (Fence.init .fixed k) ls = some s) :
+    s.out = (match s.hdrW with | some h => [lpmTrailer h] | none => []) ++
+            s.written.map (fun p => lpmMessage p.2) ++
+            (match s.trW with | some t => [lpmTrailer t] | none => []) ∧
+    (∀ t, s.trW = some t → t = trailerWithStatus s.trailer s.code s.smsg ∧ s.phase = .done) ∧
+    (k = .http → s.hdrW = none) := by
+  have hR := GB.LTS.run_reachable Fence.step _ _ ls GB.LTS.Reachable.init hr
+  have hI := Fence.inv_reachable k s hR
+  refine ⟨hI.shape, fun t ht => ⟨(hI.trIs t ht).1, hI.trDone (by simp [ht])⟩, ?_⟩
+  intro hk; subst hk
+  exact (Fence.invHttp_reachable _ s hR).2
+
+/-- gRPC-Web over HTTP: once the trailer write has happened the response body is, byte for byte, `respondHTTP` of the
+    messages whose frames were written — the sequential model all the response theorems (`C08_resp_shape`: strict
+    decoder, exactly one trailer frame, last, stating the outcome) are about. -/
+theorem C08_fence_http_body (ls : List Fence.Lbl) (s : Fence.St)
+    (hr : GB.LTS.run Fence.step (Fence.init .fixed .http) ls = some s) (ht : s.trW.isSome) :
+    s.out.flatten = respondHTTP (s.written.map (·.2)) s.trailer s.code s.smsg := by
+  obtain ⟨h1, h2, h3⟩ := C08_fence_output_shape .http ls s hr
+  cases htr : s.trW with
+  | none => simp [htr] at ht
+  | some t =>
+    rw [h1, h3 rfl, htr, (h2 t htr).1]
+    simp [respondHTTP, respondHTTPWith, List.flatMap, List.map_map, Function.comp_def]
+
+/-- Nothing after the trailer: from a state in which the handler has written (or tried to write) the trailer frame, no
+    continuation whatsoever — helpers that were abandoned and complete late included — changes the output. -/
+theorem C08_fence_nothing_after_trailer (k : Fence.Kind) (ls ls' : List Fence.Lbl) (s s' : Fence.St)
+    (hr : GB.LTS.run Fence.step (Fence.init .fixed k) ls = some s) (hd : s.phase = .done)
+    (hr' : GB.LTS.run Fence.step s ls' = some s') : s'.out = s.out :=
+  (Fence.out_frozen_run s (Fence.inv_reachable k s (GB.LTS.run_reachable Fence.step _ _ ls GB.LTS.Reachable.init hr)) hd ls' s' hr').1
+
+/-- An (abandoned) Send writes its whole frame before the trailer or nothing at all: a helper that returned nil has
+    exactly its message among the written data frames (which all precede the trailer, `C08_fence_output_shape`), a helper
+    that returned Canceled / Unavailable, or has not got to its write yet, has no frame in the output; no helper has two;
+    and every data frame is the message of one Send call. -/
+theorem C08_fence_send_all_or_nothing (k : Fence.Kind) (ls : List Fence.Lbl) (s : Fence.St)
+    (hr : GB.LTS.run Fence.step (Fence.init .fixed k) ls = some s) :
+    (∀ i h, s.helpers i = some h → h.pc = .doneOk → (i, h.msg) ∈ s.written) ∧
+    (∀ i h, s.helpers i = some h → h.pc ≠ .doneOk → h.pc ≠ .wrote → ∀ m, (i, m) ∉ s.written) ∧
+    (s.written.map Prod.fst).Nodup ∧
+    (∀ i m, (i, m) ∈ s.written → ∃ h, s.helpers i = some h ∧ h.msg = m) := by
+  have hI := Fence.inv_reachable k s (GB.LTS.run_reachable Fence.step _ _ ls GB.LTS.Reachable.init hr)
+  refine ⟨fun i h hh hp => hI.wr2 i h hh (by simp [hp, Fence.PC.hasWritten]), ?_, hI.nodup, ?_⟩
+  · intro i h hh h1 h2 m hm
+    obtain ⟨h', hh', _, hw⟩ := hI.wr i m hm
+    rw [hh] at hh'; cases hh'
+    cases hq : h.pc <;> simp_all [Fence.PC.hasWritten]
+  · intro i m hm
+    obtain ⟨h', hh', hm', _⟩ := hI.wr i m hm
+    exact ⟨h', hh', hm'⟩
+
+/-- Mutual exclusion and the flag discipline the proof rests on: at most one party is between Lock and Unlock, a helper
+    that has passed the `finished` test holds the mutex and `finished` is still false; the handler sets the flag only
+    while it holds the mutex. -/
+theorem C08_fence_mutex (k : Fence.Kind) (ls : List Fence.Lbl) (s : Fence.St)
+    (hr : GB.LTS.run Fence.step (Fence.init .fixed k) ls = some s) :
+    (∀ i j hi hj, s.helpers i = some hi → s.helpers j = some hj → hi.pc.holds = true → hj.pc.holds = true → i = j) ∧
+    (∀ i h, s.helpers i = some h → h.pc.holds = true → s.phase ≠ .inLock ∧ s.phase ≠ .flagged) ∧
+    (∀ i h, s.helpers i = some h → h.pc = .passed → s.finished = false) := by
+  have hI := Fence.inv_reachable k s (GB.LTS.run_reachable Fence.step _ _ ls GB.LTS.Reachable.init hr)
+  refine ⟨?_, ?_, hI.pass⟩
+  · intro i j hi hj h1 h2 h3 h4
+    have a := hI.hold i hi h1 h3
+    have b := hI.hold j hj h2 h4
+    rw [a] at b; cases b; rfl
+  · intro i h h1 h2
+    have a := hI.hold i h h1 h2
+    have b := hI.hmu
+    constructor <;> intro hp <;> simp [hp, a] at b
+
+/-- No deadlock on the way to the trailer (writes that return): after Forward returned and until the trailer is written,
+    the handler or the helper holding the mutex always has an enabled step. (A write that never returns: `Stall.lean`.) -/
+theorem C08_fence_progress (k : Fence.Kind) (ls : List Fence.Lbl) (s : Fence.St)
+    (hr : GB.LTS.run Fence.step (Fence.init .fixed k) ls = some s) (h1 : s.phase ≠ .forwarding) (h2 : s.phase ≠ .done) :
+    (∃ l ∈ [Fence.Lbl.finLock, .finSet, .finUnlock, .writeTrailer], (Fence.step s l).isSome) ∨
+    (∃ i, s.mu = .helper i ∧ ∃ l ∈ [Fence.Lbl.hCheck i, .hWriteHdr i, .hWrite i, .hUnlock i], (Fence.step s l).isSome) :=
+  Fence.handler_or_holder_enabled s
+    (Fence.inv_reachable k s (GB.LTS.run_reachable Fence.step _ _ ls GB.LTS.Reachable.init hr)) h1 h2
+
+/-- The order before the fix (flag read OUTSIDE the mutex; the code before e34ade0 had no fence at all, which this order
+    over-approximates from the safe side): the helper reads `finished = false`, the handler fences and writes the trailer,
+    the helper then locks and writes — a data frame AFTER the trailer frame. Same schedule under the fixed order: the
+    helper is refused, the trailer stays last. Kernel-evaluated. -/
+theorem C08_fence_original_order_writes_after_trailer :
+    (GB.LTS.run Fence.step (Fence.init .original .http)
+      [.send [7], .hCheck 0, .fwdReturn 4 [], .finLock, .finSet, .finUnlock, .writeTrailer, .hLock 0, .hWrite 0, .hUnlock 0]).map (·.out)
+      = some [lpmTrailer (trailerWithStatus [] 4 []), lpmMessage [7]] ∧
+    (GB.LTS.run Fence.step (Fence.init .fixed .http)
+      [.send [7], .fwdReturn 4 [], .finLock, .finSet, .finUnlock, .writeTrailer, .hLock 0, .hCheck 0, .hUnlock 0]).map
+        (fun s => (s.out, (s.helpers 0).map (·.pc)))
+      = some ([lpmTrailer (trailerWithStatus [] 4 [])], some .doneCanceled) := by
+  decide
+
+-- a schedule with two Sends, the second abandoned and late but before the fence: both frames, then the trailer
+example : (GB.LTS.run Fence.step (Fence.init .fixed .ws)
+    [.setHeader [], .send [1], .send [2], .hLock 0, .hCheck 0, .hWriteHdr 0, .hWrite 0, .fwdReturn 0 [], .hUnlock 0,
+     .hLock 1, .hCheck 1, .hWrite 1, .hUnlock 1, .finLock, .finSet, .finUnlock, .writeTrailer]).map (·.out) =
+    some [lpmTrailer [], lpmMessage [1], lpmMessage [2], lpmTrailer (trailerWithStatus [] 0 [])] := by decide
